@@ -121,9 +121,22 @@ def c19(tier):
     txs = r.tagged("REPLAY")
     if len(txs) < 20000:
         raise vlib.ToolError("MC_TxSim printed only %d transactions" % len(txs))
+    states, generated = r.distinct, r.generated
     if tier == "quick":
         # every transaction of one redeemer, every 4th of two (deterministic)
         txs = [t for i, t in enumerate(txs) if len(t["rs"]) == 1 or i % 4 == vlib.seed() % 4]
+    else:
+        # three redeemers over a smaller catalogue: the budget is handed over twice
+        r3 = vlib.tlc("MC_TxSim", cfg="MC_TxSim3.cfg", workers=12, timeout=3000, xmx="16g", metaname="MC_TxSim3")
+        if not r3.ok:
+            raise vlib.ToolError("MC_TxSim (3 redeemers) failed: %s\n%s" % (r3.error, r3.out[-1200:]))
+        t3 = [t for t in r3.tagged("REPLAY") if len(t["rs"]) == 3]
+        if len(t3) < 10000:
+            raise vlib.ToolError("MC_TxSim (3 redeemers) printed only %d transactions" % len(t3))
+        txs += t3
+        states += r3.distinct
+        generated += r3.generated
+        maxr = 3
 
     def missing(e):
         return e["script"] == "missing" or (e["purpose"] == "spend" and e["datum"] == "missing") or (e["purpose"] == "spend" and e["lang"] in (1, 2) and e["datum"] == "none")
@@ -251,7 +264,7 @@ def c19(tier):
     some = next(k for k in cost)
     if cost[some] == (cost[some][0] + 1, cost[some][1]):
         raise vlib.ToolError("canary")
-    cov = {"states": r.distinct, "transitions": r.generated, "traces_validated_against_impl": len(cases),
+    cov = {"states": states, "transitions": generated, "traces_validated_against_impl": len(cases),
            "evaluations": len(cases) + len(keys), "distinct_nontrivial": len(by_tx), "script_shapes": len(cost), "verdicts": stats,
            "samples": [{"tx": txs[len(txs) // 3]["rs"], "budget": txs[len(txs) // 3]["budget"], "expected": txs[len(txs) // 3]["out"]}],
            "rule": "MC_TxSim: every sequence of <= %d redeemers over {spend, mint, withdraw} x {cheap, costly, picky, fail} x {V2, V3} x script {witness, reference, missing} "
